@@ -13,23 +13,23 @@ CHECKS = {
 
 CHECKS["C01"] = dict(engine="E2-stateright + E3-bounded-exhaustive",
    technique="explicit-state model checking of the real VM (stateright BFS over instruction sequences) plus bounded-exhaustive enumeration of boundary states and of all genomes up to a length bound under every step limit, differential against the PushRef reference semantics",
-   text="Every instruction of the full set (all enum-listed int/float/bool/exec instructions, print constants, PrintString, input variables, literal pushes) is applied by the real perform in every state of a boundary family (value alphabets with i64 extremes, NaN, infinities, signed zeros) x 10 capacity patterns, and in every state of a BFS over instruction sequences; all Plushy genomes up to 3 (thorough 5) genes over an 18-gene alphabet are run by the real run_to_completion under every step limit 0..8 (12) and capacities {1,2,3,8}, which exposes every intermediate state of the real loop; plus all ordered instruction pairs. Result kind, four stacks, output and capacities are compared with the set of results the reference semantics admit.",
+   text="Every instruction of the full set (all enum-listed int/float/bool/exec instructions, print constants, PrintString, input variables, literal pushes) is applied by the real perform in every state of a boundary family (value alphabets with i64 extremes, NaN, infinities, signed zeros) x 10 capacity patterns, and in every state of a BFS over instruction sequences; every int/bool/float instruction on every ordered operand triple/pair of a wide value alphabet (33 ints, 31 floats: powers of two, roots of i64::MAX, the u32 exponent boundary, subnormals, the i64 boundary among floats); all Plushy genomes up to 4 (thorough 5) genes over an 18-gene alphabet are run by the real run_to_completion under every step limit 0..8 (12) and capacities {1,2,3,8}, which exposes every intermediate state of the real loop; plus all ordered instruction pairs. One step = one exec item taken (strict accounting). Result kind, four stacks, output and capacities are compared with the set of results the reference semantics admit.",
    note="Trusted: PushRef (DESIGN Appendix A) incl. the tolerance sets of DESIGN section 3; value alphabets stand for all values away from the listed boundaries; stateright BFS.",
    design="4/C01")
 CHECKS["C02"] = dict(engine="E2-stateright + E3-bounded-exhaustive",
    technique="explicit-state / bounded-exhaustive exploration of the real VM with a reference-free oracle (carried state == state before, full PushState equality) at every fault point",
-   text="Same exploration as C01 (every instruction x boundary states x capacity patterns x BFS over sequences) with a reference-free oracle: whenever the real perform returns Err(e), e.state() must equal the clone taken before the call (all stacks, limits, inputs, output). Second half: for every (state, instruction, continuation Q) where the instruction fails recoverably, run_to_completion of [i]++Q must end exactly like Q alone. The boundary family is exactly 'every point at which underflow or overflow can strike'.",
+   text="Same exploration as C01 (every instruction x boundary states x capacity patterns x BFS over sequences) with a reference-free oracle: whenever the real perform returns Err(e), e.state() must equal the clone taken before the call (all stacks, limits, inputs, output). Second half: for every (state, instruction, continuation Q) where the instruction fails recoverably, run_to_completion of [i]++Q under limit L must end exactly like Q under limit L-1 (the skipped instruction uses up its step like a no-op). The boundary family is exactly 'every point at which underflow or overflow can strike'.",
    note="Trusted: PushState's derived PartialEq; states above their maximum (only producible through stack_mut().set_max_stack_size) are outside the property and not explored.",
    design="4/C02")
 
 CHECKS["C03"] = dict(engine="E3-bounded-exhaustive",
    technique="bounded-exhaustive enumeration of growth programs x capacities x step limits, each run on the real interpreter in a watched child process, with intrinsic bounds and PushRef admissibility as oracles",
-   text="All genomes up to 4 (thorough 5) genes over a 16-gene growth alphabet (DupBlock, exec Dup/Swap/Flush/StackDepth, IfElse, When, Close, literal pushes, int Dup/StackDepth, Multiply, Square, Power, PrintString) under 26 capacity configurations (0..4 globally and per stack, roomy) and every step limit 0..10 (0..20). Every run must return (a hang or process death is reported as a violation), keep every stack <= its maximum, execute at most `limit` print instructions, return the input unchanged at limit 0, and end with an error iff the reference says a push exceeds a capacity, with the final/carried state among those the reference admits.",
-   note="Trusted: PushRef and tolerance sets; unbounded nesting depth is a resource limit beyond any enumerable bound (depth-2000 smoke run only).",
+   text="All genomes up to 4 (thorough 5) genes over a 16-gene growth alphabet (DupBlock, exec Dup/Swap/Flush/StackDepth, IfElse, When, Close, literal pushes, int Dup/StackDepth, Multiply, Square, Power, PrintString) under 26 capacity configurations (0..4 globally and per stack, roomy) and every step limit 0..10 (0..20). Every run must return (a hang or process death is reported as a violation), keep every stack <= its maximum, execute at most `limit` print instructions, return the input unchanged at limit 0, and end with an error iff the reference says a push exceeds a capacity, with the final/carried state among those the reference admits (strict step accounting: one step per exec item). Plus a deep-nesting family: d nested conditional blocks for every d in 8..=300 and around 512 and 1024 (thorough: every d <= 514), four kinds, three capacity vectors, step limits around every phase boundary, compared exactly.",
+   note="Trusted: PushRef and tolerance sets; nesting beyond the explored depths (1026) is a resource limit of the subject's recursive Clone/Drop and outside any enumerable bound.",
    design="4/C03")
 CHECKS["C05"] = dict(engine="E3-bounded-exhaustive",
    technique="bounded-exhaustive enumeration of all gene sequences up to length N, differential against a non-recursive reference parser plus reference-free structural checks",
-   text="All 6^0+...+6^7 (thorough 6^10) gene sequences over {Close, literal, DupBlock, When, Unless, IfElse} are converted by the real From<Plushy>; the tree must equal PlushyRef's, its depth-first reading must equal the genome with closes removed, and every opener must be followed by exactly its number of blocks with no block elsewhere; never a panic.",
+   text="All 6^0+...+6^7 (thorough 6^10) gene sequences over {Close, literal, DupBlock, When, Unless, IfElse} are converted by the real From<Plushy>; the tree must equal PlushyRef's, its depth-first reading must equal the genome with closes removed, and every opener must be followed by exactly its number of blocks with no block elsewhere; never a panic. Plus a deep-nesting family: a prefix opening d blocks (5 prefix kinds) for every d in 8..=300 and around 512, 1024 (thorough: every d <= 514 and around 4096, 32768, 65536), followed by every suffix of length <= 2 (3) and by close-k-levels-and-continue for k in d-2..=d+2.",
    note="Trusted: PlushyRef (explicit stack of open blocks); instruction identity is irrelevant beyond its number of opens.",
    design="4/C05")
 
@@ -38,7 +38,7 @@ def mc(engine, technique, text, note, design):
 
 CHECKS["C06"] = mc("E1-choice-tree",
   "stateless model checking over the environment: exhaustive DFS over every word the supplied RNG can hand out (finite exact alphabet), real selectors executed on every sequence, membership/error oracle per leaf",
-  "Every selector configuration (Best, Worst, Random, Tournament 1..n+1, Lexicase with 0..3 cases on 2 available results, lone Weighted, WeightedPair nestings of 2..4 real selectors, DynWeighted lists; direct, behind &, through Select, type-erased) x every population of size 0..3 (thorough 0..4) over 3 values x every word sequence of a mixed Grid(12)+Rep(12!,24) alphabet: the result must be pointer-identical to an element of the population passed, or one of the errors the configuration documents; never a panic.",
+  "Every selector configuration (Best, Worst, Random, Tournament 1..n+1, Lexicase with 0..3 cases on 2 available results, lone Weighted, WeightedPair nestings of 2..4 real selectors, DynWeighted lists; direct, behind &, through Select, type-erased) x every population of size 0..3 (thorough 0..4) over 3 values x every word sequence of a mixed Grid(12)+Rep(12!,24) alphabet: the result must be pointer-identical to an element of the population passed, or one of the errors the configuration documents; never a panic. Plus Lexicase(0..3), direct and erased, on every ragged population (1..3, thorough 4, individuals each with their own 0..3 results): a member, or MissingTestCase only if the case count exceeds some individual's result count.",
   "Trusted: the mixed alphabet reaches every decision of rand's range draws (range | 12) and every permutation of <= 4 shuffled items; rejection-sampling tails beyond the exploration horizon are cut and counted.", "4/C06")
 CHECKS["C07"] = mc("E1-choice-tree",
   "stateless model checking over the environment with exact probability laws: all word sequences of Grid(lcm(1..n)) explored on the real Tournament/Best/Worst, leaf weights accumulated as rationals and compared with the combinatorial law",
@@ -66,7 +66,7 @@ CHECKS["C12"] = mc("E1-choice-tree",
   "Rates off the 1/12 lattice and sub-2^-24 rounding are outside the explored space.", "4/C12")
 CHECKS["C13"] = mc("E1-choice-tree + E3",
   "stateless model checking over the RNG with exact laws on marker selectors; exhaustive u32-boundary weight vectors for the builders",
-  "12 construction shapes of WeightedPair (left chains incl. Result-chained, right chains, balanced, mixed) and DynWeighted lists x every weight vector over 0..3 (thorough 0..4) within an execution budget: member law exactly w_i/sum, zero-weight members unreachable, all-zero => zero-weight error; weight vectors over {0,1,u32::MAX-1,u32::MAX} build iff the total fits in u32.",
+  "12 construction shapes of WeightedPair (left chains incl. Result-chained, right chains, balanced, mixed) and DynWeighted lists x every weight vector over 0..3 (thorough 0..4) within an execution budget: member law exactly w_i/sum, zero-weight members unreachable, all-zero => zero-weight error; the same ratios with the weights scaled to totals just below 2^32 (units 2^30, 357913941, 858993459; static shapes); weight vectors over {0,1,u32::MAX-1,u32::MAX} build iff the total fits in u32.",
   "Weight vectors whose lcm of node sums makes the tree exceed the budget are skipped and counted.", "4/C13")
 CHECKS["C14"] = mc("E3-bounded-exhaustive x fault plans",
   "bounded-exhaustive enumeration of composition trees x fault plans (deviation bound 2) on the real combinators through the erased layer, differential against the CompRef interpreter",
